@@ -118,6 +118,15 @@ func init() {
 		ruleMemberLoops(inPkgs("simplify."), 5, 0),
 	)
 
+	register("C15",
+		"Structural necessary conditions of 'a projection transforms every vertex in place': every projection helper stores f(x[i]) back to x[i] for the loop's own i (so kind, nesting and order are preserved), the bound helper projects exactly its two corners, every member loop (incl. the layer/feature loops of the MVT projection) is complete, and no certain fault exists for any kind x shape. All numeric inverse/rounding claims are NOT decided.",
+		ruleIndexPreserving("project.", 6),
+		ruleMemberLoops(func(k string) bool {
+			return inPkgs("project.")(k) || (inPkgs("encoding/mvt.")(k) && strings.Contains(k, "Project"))
+		}, 8, 0),
+		ruleShapeFaults(shapeConfig{label: "project", keep: inPkgs("project."), floor: 8}),
+	)
+
 	register("C16",
 		"Structural necessary conditions of smart clipping: no certain fault for any 2-d kind x degenerate shape x both orientations (abstract interpretation); member loops. Region equality is NOT decided.",
 		ruleShapeFaults(shapeConfig{label: "smartclip", keep: inPkgs("clip/smartclip."), floor: 4}),
